@@ -1539,3 +1539,448 @@ Proof.
     + intros E0. unfold rview. rewrite (H0 E0). reflexivity.
     + intros T. apply (Ht T).
 Qed.
+
+(* ================= ply.Write's table on a well-formed mesh: the side conditions hold ================= *)
+Lemma seqb_eq a b : seqb a b = true -> a = b.
+Proof. unfold seqb. apply String.eqb_eq. Qed.
+
+Lemma is_attr_prop d a x : is_attr d a x = true -> wa_dim x = d /\ wa_name x = a.
+Proof. unfold is_attr. intros H. apply andb_prop in H. destruct H as [H1 H2]. split; [apply Nat.eqb_eq, H1|apply seqb_eq, H2]. Qed.
+Lemma is_attr_self x : is_attr (wa_dim x) (wa_name x) x = true.
+Proof. unfold is_attr. rewrite Nat.eqb_refl, seqb_refl. reflexivity. Qed.
+
+Lemma attr_rows_found m d a : has_attr m d a = true ->
+  exists x, In x (w_attrs m) /\ wa_dim x = d /\ wa_name x = a /\ attr_rows m d a = wa_rows x.
+Proof.
+  unfold has_attr, attr_rows. intros H. destruct (find (is_attr d a) (w_attrs m)) as [x|] eqn:E.
+  - apply find_some in E. destruct E as [Hin Hx]. destruct (is_attr_prop _ _ _ Hx) as [Hd Ha]. exists x. auto.
+  - apply existsb_exists in H. destruct H as (x & Hin & Hx). rewrite (find_none _ _ E x Hin) in Hx. discriminate.
+Qed.
+
+Definition row_ok (d : nat) (r : list N) : Prop := List.length r = d /\ Forall word32 r.
+Lemma wf_attr_prop n x : wf_attr n x = true ->
+  (1 <= wa_dim x <= 4)%nat /\ List.length (wa_rows x) = n /\ Forall (row_ok (wa_dim x)) (wa_rows x) /\
+  (is_attr 3 "Color" x = true -> Forall (Forall (fun w => unit_okb w = true)) (wa_rows x)).
+Proof.
+  unfold wf_attr. intros H. repeat (apply andb_prop in H; destruct H as [H ?]).
+  split; [split; [apply Nat.leb_le, H|apply Nat.leb_le; assumption]|].
+  split; [apply Nat.eqb_eq; assumption|]. split.
+  - apply Forall_forall. intros r Hr. rewrite forallb_forall in H1. specialize (H1 r Hr). unfold row_okb in H1.
+    apply andb_prop in H1. destruct H1 as [L W]. split; [apply Nat.eqb_eq, L|].
+    apply Forall_forall. intros w Hw. rewrite forallb_forall in W. specialize (W w Hw). unfold word32b in W. apply N.ltb_lt in W. exact W.
+  - intros C. rewrite C in H0. apply Forall_forall. intros r Hr. rewrite forallb_forall in H0. specialize (H0 r Hr).
+    apply Forall_forall. intros w Hw. rewrite forallb_forall in H0. apply H0, Hw.
+Qed.
+
+Lemma good_float w : word32 w -> good Float w /\ exists v, val Float w = Ok v.
+Proof.
+  intros H. split; [exists w; split; [reflexivity|unfold word_fits; cbn; unfold word32 in H; lia]|eexists; reflexivity].
+Qed.
+Lemma div255_byte_ok b : b <= 255 -> exists v, div255_byte b = Ok v.
+Proof.
+  intros H. unfold div255_byte. destruct (nth_error div255_tab (N.to_nat b)) as [v|] eqn:E; [eexists; reflexivity|].
+  apply nth_error_None in E. assert (L : List.length div255_tab = 256%nat) by (vm_compute; reflexivity). lia.
+Qed.
+Lemma good_uchar w : unit_okb w = true -> good UChar w /\ exists v, val UChar w = Ok v.
+Proof.
+  unfold unit_okb. destruct (q255 w) as [b|] eqn:E; [|discriminate]. intros _. pose proof (q255_le w b E) as Hb. split.
+  - exists b. split; [exact E|unfold word_fits; cbn; lia].
+  - cbn [val]. rewrite E. cbn [rbind]. apply div255_byte_ok, Hb.
+Qed.
+
+Definition pw_ok (w : pw) : Prop :=
+  List.length (pw_names w) = pw_dim w /\ (pw_ty w = Float \/ (pw_ty w = UChar /\ pw_dim w = 3%nat /\ pw_attr w = "Color"%string)).
+
+Lemma group_good_of m w : (forall x, In x (w_attrs m) -> wf_attr (w_n m) x = true) ->
+  has_attr m (pw_dim w) (pw_attr w) = true -> pw_ok w -> group_good (w_n m) (group_of m w).
+Proof.
+  intros Hwf Hh (Hl & Hty). destruct (attr_rows_found m _ _ Hh) as (x & Hin & Hd & Ha & Er).
+  destruct (wf_attr_prop _ _ (Hwf x Hin)) as (_ & Hn & Hr & Hc).
+  unfold group_good. cbn [group_of rg_ty rg_rows rg_names]. rewrite Er.
+  split; [destruct Hty as [->|(-> & _)]; reflexivity|]. split; [exact Hn|].
+  apply Forall_forall. intros r Hrin. rewrite Forall_forall in Hr. destruct (Hr r Hrin) as [Lr Wr].
+  unfold row_good. cbn [group_of rg_names rg_ty]. split; [rewrite Hl, <- Hd; exact Lr|].
+  apply Forall_forall. intros w' Hw'. destruct Hty as [->|(-> & D3 & AC)].
+  - apply good_float. rewrite Forall_forall in Wr. apply Wr, Hw'.
+  - apply good_uchar. assert (C : is_attr 3 "Color" x = true) by (unfold is_attr; rewrite Hd, D3, Ha, AC; reflexivity).
+    specialize (Hc C). rewrite Forall_forall in Hc. specialize (Hc r Hrin). rewrite Forall_forall in Hc. apply Hc, Hw'.
+Qed.
+
+Lemma default_writers_ok : Forall pw_ok default_writers.
+Proof.
+  unfold default_writers, pw_ok.
+  repeat (apply Forall_cons; [split; [reflexivity|first [left; reflexivity|right; repeat split; reflexivity]]|]). apply Forall_nil.
+Qed.
+Lemma default_writers_default : forall w, In w default_writers -> is_default_writer w = true.
+Proof.
+  assert (A : forallb is_default_writer default_writers = true) by (vm_compute; reflexivity).
+  rewrite forallb_forall in A. exact A.
+Qed.
+
+Definition tex_pw : pw := PW 2 "TexCoord" ["s"; "t"]%string Float.
+Lemma unspec_in m cl d w : In w (unspec_of_dim m cl d) ->
+  exists x, In x (w_attrs m) /\ wa_dim x = d /\ claimed cl d (wa_name x) = false /\
+    ((w_topo m = TPoint /\ d = 2%nat /\ wa_name x = "TexCoord"%string /\ w = tex_pw) \/
+     ((Nat.eqb d 2 && seqb (wa_name x) "TexCoord") = false /\ w = PW d (wa_name x) (unspec_names d (wa_name x)) Float)).
+Proof.
+  unfold unspec_of_dim. intros H. apply in_flat_map in H. destruct H as (x & Hin & Hw). exists x. split; [exact Hin|].
+  destruct (Nat.eqb (wa_dim x) d) eqn:Ed; cbn [andb] in Hw; [|destruct Hw]. apply Nat.eqb_eq in Ed.
+  destruct (claimed cl d (wa_name x)) eqn:Ec; cbn [negb] in Hw; [destruct Hw|].
+  split; [exact Ed|]. split; [reflexivity|].
+  destruct (Nat.eqb d 2 && seqb (wa_name x) "TexCoord") eqn:Et.
+  - apply andb_prop in Et. destruct Et as [E2 En]. apply Nat.eqb_eq in E2. apply seqb_eq in En.
+    destruct (w_topo m); [|destruct Hw]. destruct Hw as [<-|[]]. left. auto.
+  - destruct Hw as [<-|[]]. right. auto.
+Qed.
+
+Lemma unspec_names_length d a : (1 <= d <= 4)%nat -> List.length (unspec_names d a) = d.
+Proof. intros H. destruct d as [|[|[|[|[|]]]]]; try lia; reflexivity. Qed.
+
+Lemma has_attr_in m x : In x (w_attrs m) -> has_attr m (wa_dim x) (wa_name x) = true.
+Proof. intros H. unfold has_attr. apply existsb_exists. exists x. split; [exact H|apply is_attr_self]. Qed.
+
+Lemma unspec_good m cl d w : (forall x, In x (w_attrs m) -> wf_attr (w_n m) x = true) ->
+  In w (unspec_of_dim m cl d) -> group_good (w_n m) (group_of m w).
+Proof.
+  intros Hwf H. destruct (unspec_in m cl d w H) as (x & Hin & Hd & _ & [(Tp & D2 & Nm & ->)|(_ & ->)]).
+  - apply group_good_of; [exact Hwf| |split; [reflexivity|left; reflexivity]].
+    cbn [tex_pw PW pw_dim pw_attr]. rewrite <- D2, <- Hd, <- Nm. apply has_attr_in, Hin.
+  - apply group_good_of; [exact Hwf| |].
+    + cbn [PW pw_dim pw_attr]. rewrite <- Hd. apply has_attr_in, Hin.
+    + split; [|left; reflexivity]. cbn [PW pw_names pw_dim]. apply unspec_names_length. rewrite <- Hd.
+      apply (wf_attr_prop _ _ (Hwf x Hin)).
+Qed.
+
+Lemma effective_good o m : o_writers o = default_writers -> (forall x, In x (w_attrs m) -> wf_attr (w_n m) x = true) ->
+  Forall (group_good (w_n m)) (map (group_of m) (effective_writers o m)).
+Proof.
+  intros Ho Hwf. unfold effective_writers. rewrite Ho.
+  assert (Hq : Forall (group_good (w_n m)) (map (group_of m) (filter (qualifies m) default_writers))).
+  { apply Forall_forall. intros g Hg. apply in_map_iff in Hg. destruct Hg as (w & <- & Hw). apply filter_In in Hw. destruct Hw as [Hw Hq].
+    apply group_good_of; [exact Hwf|exact Hq|]. pose proof default_writers_ok as D. rewrite Forall_forall in D. apply D, Hw. }
+  destruct (o_unspec o); [|exact Hq]. rewrite map_app. apply Forall_app. split; [exact Hq|].
+  apply Forall_forall. intros g Hg. apply in_map_iff in Hg. destruct Hg as (w & <- & Hw). apply in_flat_map in Hw.
+  destruct Hw as (d & _ & Hw). eapply unspec_good; eassumption.
+Qed.
+
+(* ---------- the reader's view of the effective writers ---------- *)
+Lemma claimed_filter m ws d a : has_attr m d a = true -> claimed (filter (qualifies m) ws) d a = claimed ws d a.
+Proof.
+  intros H. unfold claimed. induction ws as [|w ws IH]; [reflexivity|]. cbn [filter existsb].
+  destruct (Nat.eqb (pw_dim w) d && seqb (pw_attr w) a) eqn:E.
+  - assert (Hq : qualifies m w = true).
+    { pose proof E as E'. apply andb_prop in E'. destruct E' as [E1 E2]. apply Nat.eqb_eq in E1. apply seqb_eq in E2.
+      unfold qualifies. rewrite E1, E2. exact H. }
+    rewrite Hq. cbn [existsb]. rewrite E. reflexivity.
+  - cbn [orb]. destruct (qualifies m w); [cbn [existsb]; rewrite E|]; exact IH.
+Qed.
+
+Lemma rview_default m l : (forall w, In w l -> is_default_writer w = true) -> flat_map (rview_of m) l = map (group_of m) l.
+Proof.
+  induction l as [|w l IH]; intros H; [reflexivity|]. cbn [flat_map map]. unfold rview_of at 1.
+  rewrite (H w (or_introl eq_refl)). cbn [app]. rewrite IH by (intros w' Hw'; apply H; right; exact Hw'). reflexivity.
+Qed.
+Lemma rview_user m l : (forall w, In w l -> is_default_writer w = false) ->
+  flat_map (rview_of m) l = flat_map (fun w => split_group (group_of m w)) l.
+Proof.
+  intros H. apply flat_map_ext_in. intros w Hw. unfold rview_of. rewrite (H w Hw). reflexivity.
+Qed.
+
+Definition qd (m : wmesh) : list pw := filter (qualifies m) default_writers.
+Definition ud (m : wmesh) : list pw := flat_map (unspec_of_dim m (qd m)) [4; 3; 2; 1]%nat.
+(* no per-vertex s/t texture coordinates (the reader would place their reader before the splat groups) *)
+Definition no_st (m : wmesh) : Prop := w_topo m = TTriangle \/ has_tex m = false.
+
+Lemma ud_user m : no_st m -> forall w, In w (ud m) -> is_default_writer w = false.
+Proof.
+  intros C w Hw. unfold ud in Hw. apply in_flat_map in Hw. destruct Hw as (d & _ & Hw).
+  destruct (unspec_in m (qd m) d w Hw) as (x & Hin & Hd & Hc & [(Tp & D2 & Nm & _)|(Ht & ->)]).
+  - exfalso. destruct C as [C|C]; [congruence|]. unfold has_tex in C.
+    pose proof (has_attr_in m x Hin) as Hh. rewrite Hd, D2, Nm in Hh. congruence.
+  - assert (Hh : has_attr m d (wa_name x) = true) by (rewrite <- Hd; apply has_attr_in, Hin).
+    unfold qd in Hc. rewrite (claimed_filter m default_writers d (wa_name x) Hh) in Hc.
+    change (is_default_writer (PW d (wa_name x) (unspec_names d (wa_name x)) Float))
+      with (claimed default_writers d (wa_name x) || (Nat.eqb d 2 && seqb (wa_name x) "TexCoord")).
+    rewrite Hc, Ht. reflexivity.
+Qed.
+
+Definition tail_of (m : wmesh) (l : list pw) : list rgroup := flat_map (fun w => split_group (group_of m w)) l.
+Lemma rview_shape o m : o_writers o = default_writers -> no_st m ->
+  rview o m = map (group_of m) (qd m) ++ tail_of m (if o_unspec o then ud m else []).
+Proof.
+  intros Ho C. unfold rview, effective_writers. rewrite Ho. fold (qd m).
+  assert (Eq : flat_map (rview_of m) (qd m) = map (group_of m) (qd m)).
+  { apply rview_default. intros w Hw. apply filter_In in Hw. apply default_writers_default, Hw. }
+  destruct (o_unspec o).
+  - fold (ud m). rewrite flat_map_app, Eq. rewrite (rview_user m (ud m) (ud_user m C)). reflexivity.
+  - rewrite Eq. unfold tail_of. cbn [flat_map]. rewrite app_nil_r. reflexivity.
+Qed.
+
+Lemma split_scalar g : Forall scalar_group (split_group g).
+Proof. rewrite split_group_cols. apply Forall_forall. intros g' H. apply in_map_iff in H. destruct H as (p & <- & _). reflexivity. Qed.
+Lemma split_attrs g : map rg_attr (split_group g) = rg_names g.
+Proof. rewrite split_group_cols, map_map. cbn [col_group rg_attr]. apply combine_seq_snd. reflexivity. Qed.
+Lemma tail_scalar m l : Forall scalar_group (tail_of m l).
+Proof. unfold tail_of. induction l as [|w l IH]; [constructor|]. cbn [flat_map]. apply Forall_app. split; [apply split_scalar|exact IH]. Qed.
+Lemma tail_attrs m l : map rg_attr (tail_of m l) = flat_map pw_names l.
+Proof. unfold tail_of. induction l as [|w l IH]; [reflexivity|]. cbn [flat_map]. rewrite map_app, split_attrs, IH. reflexivity. Qed.
+Lemma tail_ty m l g : (forall w, In w l -> pw_ty w = Float) -> In g (tail_of m l) -> rg_ty g = Float.
+Proof.
+  intros H Hg. unfold tail_of in Hg. apply in_flat_map in Hg. destruct Hg as (w & Hw & Hg). rewrite split_group_cols in Hg.
+  apply in_map_iff in Hg. destruct Hg as (p & <- & _). cbn [col_group rg_ty group_of]. apply H, Hw.
+Qed.
+
+Lemma user_names_ud m : no_st m -> user_names m = flat_map pw_names (ud m).
+Proof.
+  intros C. unfold user_names, user_writers. fold (qd m) (ud m). rewrite filter_all; [reflexivity|].
+  apply forallb_forall. intros w Hw. rewrite (ud_user m C w Hw). reflexivity.
+Qed.
+
+Lemma nodupb_NoDup l : nodupb l = true -> NoDup l.
+Proof.
+  induction l as [|x l IH]; intros H; [constructor|]. cbn [nodupb] in H. apply andb_prop in H. destruct H as [H1 H2].
+  constructor; [|apply IH, H2]. intros Hin. apply Bool.negb_true_iff in H1.
+  assert (E : existsb (seqb x) l = true) by (apply existsb_exists; exists x; split; [exact Hin|apply seqb_refl]). congruence.
+Qed.
+Lemma not_existsb_In n l : negb (existsb (seqb n) l) = true -> ~ In n l.
+Proof.
+  intros H Hin. apply Bool.negb_true_iff in H.
+  assert (E : existsb (seqb n) l = true) by (apply existsb_exists; exists n; split; [exact Hin|apply seqb_refl]). congruence.
+Qed.
+
+(* ---------- distinct attribute keys ---------- *)
+Lemma keys_ok_app a : forall seen b, keys_ok seen (a ++ b) = keys_ok seen a && keys_ok (seen ++ a) b.
+Proof.
+  induction a as [|g a IH]; intros seen b.
+  - cbn [app keys_ok]. rewrite app_nil_r. reflexivity.
+  - cbn [app keys_ok]. rewrite IH. rewrite <- app_assoc. cbn [app]. rewrite andb_assoc. reflexivity.
+Qed.
+
+Lemma keys_ok_scalars : forall tail seen, Forall scalar_group tail -> NoDup (map rg_attr tail) ->
+  (forall g s, In g tail -> In s seen -> gkey_eqb g (gattr s) = false) -> keys_ok seen tail = true.
+Proof.
+  induction tail as [|g tail IH]; intros seen Hs Hnd Hk; [reflexivity|].
+  apply Forall_cons_iff in Hs. destruct Hs as [Hg Hs]. cbn [map] in Hnd. apply NoDup_cons_iff in Hnd. destruct Hnd as [Hn Hnd].
+  cbn [keys_ok]. apply andb_true_intro. split.
+  - apply forallb_forall. intros s Hin. rewrite (Hk g s (or_introl eq_refl) Hin). reflexivity.
+  - apply IH; try assumption. intros g' s Hg' Hin. apply in_app_or in Hin. destruct Hin as [Hin|[<-|[]]].
+    + apply Hk; [right; exact Hg'|exact Hin].
+    + unfold gkey_eqb, gattr, key_eqb. rewrite (seqb_neq (rg_attr g') (rg_attr g)); [apply andb_false_r|].
+      intros E. apply Hn. rewrite <- E. apply in_map, Hg'.
+Qed.
+
+Lemma keys_ok_pregs m (f : pw -> bool) : keys_ok [] (map (group_of m) (filter f default_writers)) = true.
+Proof.
+  unfold default_writers. cbn [filter].
+  destruct (f _), (f _), (f _), (f _), (f _), (f _), (f _); reflexivity.
+Qed.
+
+Lemma default_vs_scalar : Forall (fun w => forall n : string, n <> "Opacity"%string ->
+                                     Nat.eqb 1 (List.length (pw_names w)) && seqb n (pw_attr w) = false) default_writers.
+Proof.
+  unfold default_writers. repeat (apply Forall_cons; [intros n Hn; first [reflexivity|cbn; apply seqb_neq, Hn]|]). apply Forall_nil.
+Qed.
+
+Lemma pregs_vs_tail m g s : scalar_group g -> rg_attr g <> "Opacity"%string -> In s (map (group_of m) (qd m)) ->
+  gkey_eqb g (gattr s) = false.
+Proof.
+  intros Hg Hn Hs. apply in_map_iff in Hs. destruct Hs as (w & <- & Hw). apply filter_In in Hw. destruct Hw as [Hw _].
+  pose proof default_vs_scalar as D. rewrite Forall_forall in D. specialize (D w Hw (rg_attr g) Hn).
+  unfold gkey_eqb, gattr, key_eqb. cbn [group_of rg_names rg_attr]. rewrite Hg. exact D.
+Qed.
+
+Lemma ascii_ok_pregs m (f : pw -> bool) : forallb ascii_ok (map (group_of m) (filter f default_writers)) = true.
+Proof.
+  unfold default_writers. cbn [filter].
+  destruct (f _), (f _), (f _), (f _), (f _), (f _), (f _); reflexivity.
+Qed.
+
+(* ---------- faces of a well-formed triangle mesh ---------- *)
+Lemma tris_In l a b c : (List.length l mod 3 = 0)%nat -> In (a, b, c) (tris l) -> In a l /\ In b l /\ In c l.
+Proof.
+  intros Hm Hin. destruct (tris_spec (List.length l) l (le_n _) Hm) as [Ef _].
+  assert (H : forall x, In x [a; b; c] -> In x l).
+  { intros x Hx. rewrite <- Ef. apply in_flat_map. exists (a, b, c). split; [exact Hin|exact Hx]. }
+  repeat split; apply H; cbn; auto.
+Qed.
+
+Lemma uv_at_ok m i : (forall x, In x (w_attrs m) -> wf_attr (w_n m) x = true) -> has_tex m = true -> (i < w_n m)%nat ->
+  exists r, uv_at m i = Ok r /\ List.length r = 2%nat /\ Forall word32 r.
+Proof.
+  intros Hwf Hx Hi. unfold has_tex in Hx. destruct (attr_rows_found m _ _ Hx) as (x & Hin & Hd & _ & Er).
+  destruct (wf_attr_prop _ _ (Hwf x Hin)) as (_ & Hn & Hr & _). unfold uv_at. rewrite Er.
+  destruct (nth_error (wa_rows x) i) as [r|] eqn:E; [|apply nth_error_None in E; lia].
+  exists r. split; [reflexivity|]. rewrite Forall_forall in Hr. destruct (Hr r (nth_error_In _ _ E)) as [L W]. rewrite Hd in L. auto.
+Qed.
+
+Lemma firstn2 (r : list N) : List.length r = 2%nat -> firstn 2 r = r.
+Proof. destruct r as [|a [|b [|]]]; try discriminate. reflexivity. Qed.
+
+Lemma face_uvs_ok m a b c : (forall x, In x (w_attrs m) -> wf_attr (w_n m) x = true) -> has_tex m = true ->
+  (a < w_n m)%nat -> (b < w_n m)%nat -> (c < w_n m)%nat ->
+  exists u, face_uvs m (a, b, c) = Ok u /\ List.length u = 6%nat /\ Forall word32 u.
+Proof.
+  intros Hwf Hx Ha Hb Hc.
+  destruct (uv_at_ok m a Hwf Hx Ha) as (ra & Ea & La & Wa). destruct (uv_at_ok m b Hwf Hx Hb) as (rb & Eb & Lb & Wb).
+  destruct (uv_at_ok m c Hwf Hx Hc) as (rc & Ec & Lc & Wc).
+  unfold face_uvs. rewrite Ea, Eb, Ec. cbn [rbind]. rewrite !firstn2 by assumption. eexists. split; [reflexivity|].
+  split; [rewrite !app_length, La, Lb, Lc; reflexivity|]. repeat (apply Forall_app; split); assumption.
+Qed.
+
+Lemma ud_float m w : In w (ud m) -> pw_ty w = Float.
+Proof.
+  intros Hw. unfold ud in Hw. apply in_flat_map in Hw. destruct Hw as (d & _ & Hw).
+  destruct (unspec_in m (qd m) d w Hw) as (x & _ & _ & _ & [(_ & _ & _ & ->)|(_ & ->)]); reflexivity.
+Qed.
+
+Lemma no_attrs_no_writers o m : o_writers o = default_writers -> w_attrs m = [] -> effective_writers o m = [].
+Proof.
+  intros Ho E. unfold effective_writers. rewrite Ho.
+  assert (Eq : filter (qualifies m) default_writers = []).
+  { unfold default_writers. cbn [filter]. unfold qualifies, has_attr. rewrite E. reflexivity. }
+  rewrite Eq. destruct (o_unspec o); [|reflexivity]. unfold unspec_of_dim. rewrite E. reflexivity.
+Qed.
+
+(* ---------- [expected] is a mesh, not an error ---------- *)
+Lemma mapR_map {A B C} (f : B -> result C) (g : A -> B) l : mapR f (map g l) = mapR (fun x => f (g x)) l.
+Proof. induction l as [|x l IH]; [reflexivity|]. cbn [map mapR]. rewrite IH. reflexivity. Qed.
+Lemma gather_ok {A} (data : list A) (d : A) idx : Forall (fun i => (i < List.length data)%nat) idx ->
+  gather data (zidx idx) = Ok (map (fun i => nth i data d) idx).
+Proof.
+  intros H. unfold gather, zidx. rewrite mapR_map. apply mapR_ok. intros i Hi. rewrite Forall_forall in H. specialize (H i Hi).
+  replace (Z.of_nat i <? 0)%Z with false by lia. rewrite Nat2Z.id.
+  destruct (nth_error data i) as [x|] eqn:E; [|apply nth_error_None in E; lia]. rewrite (nth_error_nth _ _ _ E). reflexivity.
+Qed.
+Lemma unweld_ok n gs idx : Forall (fun g => List.length (rg_rows g) = n) gs -> Forall (fun i => (i < n)%nat) idx ->
+  exists ua, unweld_attrs (map gattr gs) (zidx idx) = Ok ua.
+Proof.
+  intros Hl Hi. unfold unweld_attrs. rewrite mapR_map. eexists.
+  apply (mapR_ok _ (fun g => (List.length (rg_names g), rg_attr g, map (fun i => nth i (map (map (vl (rg_ty g))) (rg_rows g)) []) idx))).
+  intros g Hg. unfold gattr. rewrite (gather_ok _ []); [reflexivity|].
+  rewrite map_length. rewrite Forall_forall in Hl. rewrite (Hl g Hg). exact Hi.
+Qed.
+
+Theorem result_mesh_ok bin gs m : Forall (group_good (w_n m)) gs -> keys_ok [] gs = true -> (w_n m = 0%nat -> gs = []) ->
+  (w_topo m = TTriangle -> Forall (fun i => (i < w_n m)%nat) (w_idx m)) -> exists r, result_mesh bin gs m = Ok r.
+Proof.
+  intros Hg Hk H0 Hi. unfold result_mesh.
+  assert (Hl : Forall (fun g => List.length (rg_rows g) = w_n m) gs) by (eapply Forall_impl; [|exact Hg]; intros g (_ & L & _); exact L).
+  assert (Ea : update_mesh (layout bin gs 0) 0 (map (vrow gs) (seq 0 (w_n m))) [] = map gattr gs).
+  { destruct (w_n m) as [|n'] eqn:En; [rewrite (H0 eq_refl); reflexivity|apply attrs_of_layout; [lia|exact Hl|exact Hk]]. }
+  rewrite Ea. destruct (w_topo m); [eexists; reflexivity|]. destruct (has_tex m); [|eexists; reflexivity].
+  unfold mesh_of. destruct (_ && _); [|eexists; reflexivity].
+  destruct (unweld_ok (w_n m) gs (w_idx m) Hl (Hi eq_refl)) as (ua & ->). cbn [rbind]. eexists. reflexivity.
+Qed.
+
+(* ================= the whole-file statement for ply.Write's table ================= *)
+Lemma default_conditions o f m : o_writers o = default_writers -> wf_mesh m = true -> no_st m ->
+  (f = ASCII -> w_n m = 0%nat \/ vertex_props (rview o m) <> []) ->
+  Forall (group_good (w_n m)) (map (group_of m) (effective_writers o m)) /\
+  readers_ok (is_bin f) (rview o m) /\ keys_ok [] (rview o m) = true /\
+  (w_n m = 0%nat -> effective_writers o m = []) /\
+  (f = ASCII -> forallb ascii_ok (rview o m) = true /\ (w_n m = 0%nat \/ vertex_props (rview o m) <> [])) /\
+  (w_topo m = TTriangle -> (List.length (w_idx m) mod 3 = 0)%nat /\ Forall tri_ok (tris (w_idx m))) /\
+  (has_tex m = true -> tex_ok m) /\
+  (w_topo m = TTriangle -> Forall (fun i => (i < w_n m)%nat) (w_idx m)).
+Proof.
+  intros Ho Hwf C Hasc. unfold wf_mesh in Hwf.
+  apply andb_prop in Hwf. destruct Hwf as [Hwf Htopo]. apply andb_prop in Hwf. destruct Hwf as [Hwf Hop].
+  apply andb_prop in Hwf. destruct Hwf as [Hwf Hres]. apply andb_prop in Hwf. destruct Hwf as [Hwf Hnd].
+  apply andb_prop in Hwf. destruct Hwf as [Hwf Hemp]. apply andb_prop in Hwf. destruct Hwf as [Hattr _].
+  assert (Ha : forall x, In x (w_attrs m) -> wf_attr (w_n m) x = true) by (rewrite forallb_forall in Hattr; exact Hattr).
+  apply nodupb_NoDup in Hnd. apply not_existsb_In in Hop.
+  assert (Hres' : forall n, In n (user_names m) -> ~ In n reserved_names)
+    by (intros n Hn; rewrite forallb_forall in Hres; apply not_existsb_In, Hres, Hn).
+  set (l := if o_unspec o then ud m else []).
+  assert (Hl : incl (flat_map pw_names l) (user_names m) /\ NoDup (flat_map pw_names l)).
+  { unfold l. destruct (o_unspec o); [rewrite <- (user_names_ud m C); split; [apply incl_refl|exact Hnd]|split; [intros x []|constructor]]. }
+  destruct Hl as [Hli Hlnd].
+  assert (Hlf : forall w, In w l -> pw_ty w = Float) by (unfold l; destruct (o_unspec o); [apply ud_float|intros w []]).
+  pose proof (rview_shape o m Ho C) as Er. fold l in Er.
+  split; [|split; [|split; [|split; [|split; [|split; [|split]]]]]].
+  - apply effective_good; assumption.
+  - rewrite Er. unfold qd. apply (readers_ok_default_user (is_bin f) m (qualifies m)); [apply tail_scalar|rewrite tail_attrs; exact Hlnd|].
+    apply Forall_forall. intros g Hg. apply Hres', Hli. rewrite <- (tail_attrs m). apply in_map, Hg.
+  - rewrite Er, keys_ok_app. cbn [app]. unfold qd. rewrite keys_ok_pregs. cbn [andb].
+    apply keys_ok_scalars; [apply tail_scalar|rewrite tail_attrs; exact Hlnd|].
+    intros g s Hg Hs. apply (pregs_vs_tail m); [| |exact Hs].
+    + pose proof (tail_scalar m l) as T. rewrite Forall_forall in T. apply T, Hg.
+    + intros E. apply Hop, Hli. rewrite <- (tail_attrs m), <- E. apply in_map, Hg.
+  - intros E0. apply no_attrs_no_writers; [exact Ho|]. destruct (w_attrs m); [reflexivity|].
+    rewrite E0 in Hemp. discriminate.
+  - intros Ef. split; [|apply Hasc, Ef]. rewrite Er, forallb_app. unfold qd. rewrite ascii_ok_pregs. cbn [andb].
+    apply forallb_forall. intros g Hg. unfold ascii_ok. rewrite (tail_ty m l g Hlf Hg). cbn [sty_eqb]. rewrite andb_false_r. reflexivity.
+  - intros T. rewrite T in Htopo. apply andb_prop in Htopo. destruct Htopo as [Htopo Hn31]. apply andb_prop in Htopo.
+    destruct Htopo as [Hm3 Hidx]. apply Nat.eqb_eq in Hm3. split; [exact Hm3|].
+    apply Forall_forall. intros [[a b] c] Ht. destruct (tris_In _ _ _ _ Hm3 Ht) as (Ia & Ib & Ic).
+    rewrite forallb_forall in Hidx. pose proof (Hidx a Ia) as Pa. pose proof (Hidx b Ib) as Pb. pose proof (Hidx c Ic) as Pc.
+    apply Nat.ltb_lt in Pa, Pb, Pc. apply N.ltb_lt in Hn31. unfold tri_ok, idx_ok. lia.
+  - intros Hx t Ht. unfold faces_of in Ht. destruct (w_topo m) eqn:T; [destruct Ht|].
+    apply andb_prop in Htopo. destruct Htopo as [Htopo _]. apply andb_prop in Htopo. destruct Htopo as [Hm3 Hidx].
+    apply Nat.eqb_eq in Hm3. destruct t as [[a b] c]. destruct (tris_In _ _ _ _ Hm3 Ht) as (Ia & Ib & Ic).
+    rewrite forallb_forall in Hidx. pose proof (Hidx a Ia) as Pa. pose proof (Hidx b Ib) as Pb. pose proof (Hidx c Ic) as Pc.
+    apply Nat.ltb_lt in Pa, Pb, Pc. apply face_uvs_ok; assumption.
+  - intros T. rewrite T in Htopo. apply andb_prop in Htopo. destruct Htopo as [Htopo _]. apply andb_prop in Htopo.
+    destruct Htopo as [_ Hidx]. apply Forall_forall. intros i Hi. rewrite forallb_forall in Hidx. apply Nat.ltb_lt, Hidx, Hi.
+Qed.
+
+(* for every well-formed point cloud / triangle mesh (no per-vertex s/t, see [no_st]), both settings of
+   WriteUnspecifiedProperties, every encoding: the writer model produces a file, and the reader model returns
+   from it exactly the mesh [expected o m] *)
+Theorem ply_write_read_default o f m : o_writers o = default_writers -> wf_mesh m = true -> no_st m ->
+  (f = ASCII -> w_n m = 0%nat \/ vertex_props (rview o m) <> []) ->
+  exists file r, write o f m = Ok file /\ expected o m = Ok r /\ read_mesh file = Ok r.
+Proof.
+  intros Ho Hwf C Hasc. destruct (default_conditions o f m Ho Hwf C Hasc) as (Hg & Hr & Hk & H0 & Ha & Ht & Hx & Hi).
+  destruct (write_read_expected o f m Hg Hr Hk H0 Ha Ht Hx) as (file & Ew & Er).
+  destruct (rview_same (w_n m) m (effective_writers o m) Hg) as (_ & Gd & _).
+  assert (H0' : w_n m = 0%nat -> rview o m = []) by (intros E; unfold rview; rewrite (H0 E); reflexivity).
+  assert (Ee : expected o m = result_mesh (is_bin f) (rview o m) m).
+  { apply expected_result; try assumption. intros T. apply (Ht T). }
+  destruct (result_mesh_ok (is_bin f) (rview o m) m Gd Hk H0' Hi) as (r & Erm).
+  exists file, r. rewrite Er, Ee. auto.
+Qed.
+
+(* the three encodings of one mesh decode to the same mesh *)
+Theorem ply_encodings_agree_default o m : o_writers o = default_writers -> wf_mesh m = true -> no_st m ->
+  (w_n m = 0%nat \/ vertex_props (rview o m) <> []) ->
+  exists fa fl fb r, write o ASCII m = Ok fa /\ write o BinLE m = Ok fl /\ write o BinBE m = Ok fb /\
+                     read_mesh fa = Ok r /\ read_mesh fl = Ok r /\ read_mesh fb = Ok r /\ expected o m = Ok r.
+Proof.
+  intros Ho Hwf C Hne.
+  destruct (ply_write_read_default o ASCII m Ho Hwf C (fun _ => Hne)) as (fa & ra & Wa & Ea & Ra).
+  destruct (ply_write_read_default o BinLE m Ho Hwf C (fun _ => Hne)) as (fl & rl & Wl & El & Rl).
+  destruct (ply_write_read_default o BinBE m Ho Hwf C (fun _ => Hne)) as (fb & rb & Wb & Eb & Rb).
+  assert (rl = ra) by congruence. assert (rb = ra) by congruence. subst rl rb.
+  exists fa, fl, fb, ra. auto 10.
+Qed.
+
+(* what is left for point clouds that carry TexCoord per vertex (s, t): the file itself is known in closed form *)
+Lemma wf_faces m : wf_mesh m = true ->
+  (w_topo m = TTriangle -> (List.length (w_idx m) mod 3 = 0)%nat) /\ (has_tex m = true -> tex_ok m) /\
+  (forall x, In x (w_attrs m) -> wf_attr (w_n m) x = true).
+Proof.
+  intros Hwf. unfold wf_mesh in Hwf.
+  apply andb_prop in Hwf. destruct Hwf as [Hwf Htopo]. apply andb_prop in Hwf. destruct Hwf as [Hwf _].
+  apply andb_prop in Hwf. destruct Hwf as [Hwf _]. apply andb_prop in Hwf. destruct Hwf as [Hwf _].
+  apply andb_prop in Hwf. destruct Hwf as [Hwf _]. apply andb_prop in Hwf. destruct Hwf as [Hattr _].
+  assert (Ha : forall x, In x (w_attrs m) -> wf_attr (w_n m) x = true) by (rewrite forallb_forall in Hattr; exact Hattr).
+  split; [|split; [|exact Ha]].
+  - intros T. rewrite T in Htopo. apply andb_prop in Htopo. destruct Htopo as [Htopo _]. apply andb_prop in Htopo.
+    destruct Htopo as [Hm3 _]. apply Nat.eqb_eq, Hm3.
+  - intros Hx t Ht. unfold faces_of in Ht. destruct (w_topo m) eqn:T; [destruct Ht|].
+    apply andb_prop in Htopo. destruct Htopo as [Htopo _]. apply andb_prop in Htopo. destruct Htopo as [Hm3 Hidx].
+    apply Nat.eqb_eq in Hm3. destruct t as [[a b] c]. destruct (tris_In _ _ _ _ Hm3 Ht) as (Ia & Ib & Ic).
+    rewrite forallb_forall in Hidx. pose proof (Hidx a Ia) as Pa. pose proof (Hidx b Ib) as Pb. pose proof (Hidx c Ic) as Pc.
+    apply Nat.ltb_lt in Pa, Pb, Pc. apply face_uvs_ok; assumption.
+Qed.
+
+Theorem write_closed_default o f m : o_writers o = default_writers -> wf_mesh m = true ->
+  (f = ASCII -> w_n m = 0%nat \/ effective_writers o m <> []) ->
+  write o f m = Ok {| pf_header := header_lines f (header_elems (map (group_of m) (effective_writers o m)) m);
+                      pf_body := closed_body f (map (group_of m) (effective_writers o m)) m |}.
+Proof.
+  intros Ho Hwf Hne. destruct (wf_faces m Hwf) as (Hm & Hx & Ha). unfold write.
+  rewrite write_body_closed; [reflexivity|apply effective_good; assumption| |exact Hm|exact Hx].
+  intros E. destruct (Hne E) as [H|H]; [left; exact H|right]. intros Hn. apply H. destruct (effective_writers o m); [reflexivity|discriminate].
+Qed.
